@@ -9,7 +9,7 @@ Definition api_check_tree (prop : N) (s : src) (ws : list (N * wop)) (o : tree_o
   else if prop =? 4 then chk_C04 s o
   else if prop =? 7 then chk_C07 s o
   else if prop =? 8 then chk_C08_all s o
-  else if prop =? 9 then chk_C09 s o
+  else if prop =? 9 then chk_C09_all s o
   else if prop =? 11 then chk_C11 s o
   else if prop =? 17 then chk_C17 s o
   else 100.
